@@ -8,7 +8,7 @@
     and no [i g /R] inside an array (the four known classes, each refuted below by a witness).
     PROVED below: every token class for all values of that class (the [_partial] part), the
     escaper of the incremental writer for all names, the refutations. *)
-From OxVerif Require Import Base.Util C09.Model C09.Tokens C09.FracSweep C09.Proofs.
+From OxVerif Require Import Base.Util C09.Model C09.Tokens C09.FracSweep C09.Proofs C09.Reals.
 
 (** literal strings: every byte string, whatever follows *)
 Theorem c09_literal_string_roundtrip : forall s rest,
@@ -62,6 +62,25 @@ Theorem c09_fraction_digits : forall x, x < 1000000 -> frac_ok x = true.
 Proof. exact frac_sweep. Qed.
 Check c09_fraction_digits : forall x, x < 1000000 -> frac_ok x = true.
 Print Assumptions c09_fraction_digits.
+
+(** reals: every finite value as the writer prints it ({:.6}, trimmed); an integral one comes back as that integer *)
+Theorem c09_real_token_partial : forall neg m rest, real_ok neg m = true -> good_rest rest ->
+  lex1 (ser raw_name (OReal neg m) ++ rest) = (real_tok neg m, rest).
+Proof. exact lex_ser_real. Qed.
+Check c09_real_token_partial : forall neg m rest, real_ok neg m = true -> good_rest rest -> lex1 (ser raw_name (OReal neg m) ++ rest) = (real_tok neg m, rest).
+Print Assumptions c09_real_token_partial.
+
+(** references: the three tokens n, g, R *)
+Theorem c09_ref_tokens_partial : forall n g rest, good_rest rest ->
+  (Z.of_N n <=? i64_max)%Z = true -> (Z.of_N g <=? i64_max)%Z = true ->
+  exists r1 r2, lex1 (ser raw_name (ORef n g) ++ rest) = (TInt (Z.of_N n), r1)
+             /\ lex1 r1 = (TInt (Z.of_N g), r2) /\ lex1 r2 = (TName name_R, rest).
+Proof. exact lex_ser_ref. Qed.
+Check c09_ref_tokens_partial : forall n g rest, good_rest rest ->
+  (Z.of_N n <=? i64_max)%Z = true -> (Z.of_N g <=? i64_max)%Z = true ->
+  exists r1 r2, lex1 (ser raw_name (ORef n g) ++ rest) = (TInt (Z.of_N n), r1)
+             /\ lex1 r1 = (TInt (Z.of_N g), r2) /\ lex1 r2 = (TName name_R, rest).
+Print Assumptions c09_ref_tokens_partial.
 
 (** the incremental writer's #XX escaper: every name *)
 Theorem c09_incr_name_roundtrip : forall n rest, bytes_ok n = true -> good_rest rest ->
